@@ -26,6 +26,12 @@ func add(a, b *big.Int) *big.Int  { return inplace(new(big.Int).Add(a, b)) }
 func sub(a, b *big.Int) *big.Int  { return inplace(new(big.Int).Sub(a, b)) }
 func mul(a, b *big.Int) *big.Int  { return inplace(new(big.Int).Mul(a, b)) }
 
+// addL / subL are the field addition and subtraction of the ladder step with the
+// reduction deferred to the multiplication that always follows (operands stay in
+// (-p, 2p); big.Int.Mod is Euclidean, so the product is reduced to [0, p)).
+func addL(a, b *big.Int) *big.Int { return new(big.Int).Add(a, b) }
+func subL(a, b *big.Int) *big.Int { return new(big.Int).Sub(a, b) }
+
 func fromLE(b []byte) *big.Int {
 	r := make([]byte, len(b))
 	for i := range b {
@@ -106,21 +112,21 @@ func LadderProjective(k, u *big.Int) (*big.Int, *big.Int) {
 		z2, z3 = cswap(swap, z2, z3)
 		swap = kt
 
-		a := add(x2, z2)
+		a := addL(x2, z2)
 		aa := mul(a, a)
-		b := sub(x2, z2)
+		b := subL(x2, z2)
 		bb := mul(b, b)
-		e := sub(aa, bb)
-		c := add(x3, z3)
-		d := sub(x3, z3)
+		e := subL(aa, bb)
+		c := addL(x3, z3)
+		d := subL(x3, z3)
 		da := mul(d, a)
 		cb := mul(c, b)
-		t0 := add(da, cb)
+		t0 := addL(da, cb)
 		x3 = mul(t0, t0)
-		t1 := sub(da, cb)
+		t1 := subL(da, cb)
 		z3 = mul(x1, mul(t1, t1))
 		x2 = mul(aa, bb)
-		z2 = mul(e, add(aa, mul(A24, e)))
+		z2 = mul(e, addL(aa, mul(A24, e)))
 	}
 	x2, x3 = cswap(swap, x2, x3)
 	z2, z3 = cswap(swap, z2, z3)
